@@ -104,6 +104,7 @@ class C01:
             "amplitudes (incl. 0 and 1) for the model run, arbitrary rationals for oracle-only programs; malformed stream "
             "(out-of-range modes, equal bs modes, invalid reflectivity/loss, incomplete swaps, oversize blocks). "
             "Non-trivial = >= 3 accepted components of >= 2 kinds; distinct = distinct program JSON")
+    COQ_TARGETS = ["theories/Exec/RunCircuit.vo"]
     CHUNK = 60
     TRUSTED = ["Python floats vs exact rationals compared at 1e-9"]
     ASSUMPTIONS = ["documented parameter ranges; NaN and non-numeric arguments are outside the model (malformed stream checks error class only)"]
